@@ -21,6 +21,9 @@ def known_signature(ev, text):
     constant passes the checker and panics the compiler."""
     if ev["outcome"] not in ("panic", "hang", "crash"):
         return None
+    if ev["outcome"] == "panic" and ev.get("unspec_binding"):
+        # the accepted program binds a name to a value of unresolved integer type (see the C05 entry unspecified-binding)
+        return "unspecified-binding"
     msg = ev.get("phase", "")
     sizes = SIZE_POS.findall(text)
     if any(HUGE.fullmatch(x) for x in sizes) and (ev["outcome"] in ("hang", "crash") or "overflow" in msg or "capacity" in msg or "alloc" in msg):
@@ -81,6 +84,21 @@ def run(run, harness, replay=None):
         tpath = os.path.join(run.work, "opmatrix_texts.ndjson")
         write_ndjson(tpath, [{"kind": "text", "text": opmatrix.case(c)[1], "prog": "operator-matrix", "edit": c} for c in read_ndjson(mpath)])
         jobs.append(["texts", tpath])
+        # constant declarations that refer to themselves, to later or to unknown constants, in every expression form
+        ctexts = []
+        forms = ["%s", "%s + 1usize", "max(%s, 2usize)", "min(1usize, %s)", "%s - %s"]
+        for a in ("A", "B", "C", "zz"):
+            for f in forms:
+                for order in (0, 1):
+                    decls = ["const A: usize = %s;" % (f.replace("%s", a)), "const B: usize = PARTY_0::B;", "const C: usize = B + 1usize;"]
+                    if order:
+                        decls.reverse()
+                    ctexts.append({"kind": "text", "text": "\n".join(decls) + "\npub fn main(x: [u8; A]) -> [u8; C] { [0u8; C] }\n", "prog": "const-references", "edit": {"ref": a, "form": f, "order": order}})
+        for ty, v in (("u8", "A"), ("i16", "A + A"), ("bool", "A"), ("u8", "B")):
+            ctexts.append({"kind": "text", "text": "const A: %s = %s;\npub fn main(x: u8) -> u8 { x }\n" % (ty, v), "prog": "const-references", "edit": {"ty": ty, "v": v}})
+        ctpath = os.path.join(run.work, "const_texts.ndjson")
+        write_ndjson(ctpath, ctexts)
+        jobs.append(["texts", ctpath])
         # cut-and-continue space: every prefix of construct-covering programs followed by every short token string
         cpath = os.path.join(run.work, "cuts.ndjson")
         r, cnt = tlc_cases("Gen_TokenStrings", "Gen_TokenStrings_%s.cfg" % tier, cpath, workers=4, timeout=3000)
